@@ -9,7 +9,10 @@ WARM = ["get_kappa", "get_deltaMax", "get_deltaMaxPerm", "get_delta", "get_Omega
         "clear_phosphosites", "get_HTMLColorString", "get_isoelectric_point", "get_linear_complexity",
         "get_reduced_alphabet_sequence", "get_shuffled_sequence", "get_FCR_pH", "get_mean_hydropathy",
         "get_phasePlotRegion", "len", "str", "get_fraction_disorder_promoting", "get_amino_acid_fractions",
-        "get_molecular_weight", "get_PPII_propensity"]
+        "get_molecular_weight", "get_PPII_propensity",
+        # entry points that write files or render, and the remaining getters: none of them may change what is asked afterwards
+        "write_compfile", "write_compfile", "save_phaseDiagramPlot", "get_Omega_sequence", "get_all_phosphorylatable_sites", "repr",
+        "get_uversky_hydropathy", "get_WW_hydropathy", "get_countNeut", "get_fraction_positive", "get_mean_net_charge"]
 
 
 def warmup(o, rng, n=None, phos=True):
@@ -97,6 +100,19 @@ def apply_call(o, c):
         return common.call(o.get_FCR, c["pH"])
     if n == "get_reduced_alphabet_sequence":
         return common.call(o.get_reduced_alphabet_sequence, c["size"])
+    if n in ("write_compfile", "save_phaseDiagramPlot"):
+        import os
+        d = os.path.join(common.VERIF, ".work", "objfiles")
+        os.makedirs(d, exist_ok=True)
+        path = os.path.join(d, "warm-%d" % os.getpid())
+        try:
+            return common.call(getattr(o, n), path)
+        finally:
+            for f in (path, path + ".png", path + ".pdf"):
+                if os.path.exists(f):
+                    os.remove(f)
+    if n == "repr":
+        return common.call(repr, o)
     if n == "len":
         return common.call(len, o)
     if n == "str":
@@ -122,13 +138,11 @@ def make_object(lc, seq, rng, allow_shuffle=True):
         import tempfile
         d = os.path.join(common.VERIF, ".work", "objfiles")
         os.makedirs(d, exist_ok=True)
-        fd, path = tempfile.mkstemp(dir=d, suffix=".fasta")
-        with os.fdopen(fd, "w") as f:
-            f.write(">made by the harness\n" + "\n".join(seq[i:i + 60] for i in range(0, len(seq), 60)) + rng.choice(["\n", ""]))
-        try:
-            out = common.call(lambda: lc.SP(sequenceFile=path))
-        finally:
-            os.remove(path)
+        # one path per process, overwritten every time (a scratch file reused for one sequence after another, often of the same size)
+        path = os.path.join(d, "query-%d.fasta" % os.getpid())
+        with open(path, "w") as f:
+            f.write(">made by the harness\n" + "\n".join(seq[i:i + 60] for i in range(0, len(seq), 60)) + "\n")
+        out = common.call(lambda: lc.SP(sequenceFile=path))
         if out[0] == "ok":
             return out[1], seq, "from a FASTA file (sequenceFile=)"
         return lc.SP(seq), seq, "direct"
